@@ -394,11 +394,20 @@ func (set *Set) remove(hosts ...*Host) {
 	if len(hosts) == 0 {
 		return
 	}
+	removed := make([]*Host, 0, len(hosts))
 	for _, host := range hosts {
-		delete(set.all, host.Addr)
+		// The caller may pass a different object describing the same address
+		// (e.g. one built from a discovery event), so act on the stored host.
 		host.markRemoved()
+		stored, ok := set.all[host.Addr]
+		if !ok {
+			continue
+		}
+		delete(set.all, host.Addr)
+		stored.markRemoved()
+		removed = append(removed, stored)
 	}
-	set.removeFromHealthy(hosts...)
+	set.removeFromHealthy(removed...)
 }
 
 // MarkHostHealthy marks the given host as healthy.
